@@ -55,15 +55,21 @@ Definition is_smart (k : kind) : bool :=
 (** Which cast the traits instantiate for method class [B] and definition
     class [D].  For virtual_<shared_ptr<T>> and virtual_<const shared_ptr<T>&>
     the code tests requires_dynamic_cast<T*, DERIVED> where DERIVED is the
-    *shared_ptr* type of the definition (detail.hpp:436, 468): since C++17
-    shared_ptr<D>'s constructor from a raw pointer is constrained, so that
-    static_cast only compiles when T = D; in every other case the traits use
-    dynamic_pointer_cast, even where static_pointer_cast would do. *)
+    *smart pointer* type of the definition (detail.hpp:436, 468), i.e. whether
+    a static_cast from a raw T pointer to DERIVED compiles:
+      - DERIVED = shared_ptr<D>: since C++17 the constructor from a raw pointer
+        is constrained, so this compiles only when T = D;
+      - DERIVED = const shared_ptr<D>&: binding the reference would need an
+        implicit conversion from a raw pointer, the constructor is explicit:
+        never compiles.
+    In every other case the traits use dynamic_pointer_cast, even where
+    static_pointer_cast would do. *)
 Definition cast_choice (H : hier) (fuel : nat) (k : kind) (B D : class) : cast_op :=
-  if uses_optimal_cast k then
-    (if static_cast_ok H fuel B D then CStatic else CDynamic)
-  else
-    (if N.eqb B D then CStatic else CDynamic).
+  match k with
+  | KShared => if N.eqb B D then CStatic else CDynamic
+  | KCShared => CDynamic
+  | _ => if static_cast_ok H fuel B D then CStatic else CDynamic
+  end.
 
 (** The pointer part of the cast: [s] of class [B], inside a complete object
     of class [C], converted for a definition whose parameter class is [D]. *)
